@@ -97,7 +97,7 @@ func (c13Sim) Gen(prop, tier string, r *rand.Rand) interface{} {
 			a.Kind = "abandoner"
 		default:
 			a.Kind = "badopen"
-			a.Hostile = pick(r, "short", "badheader", "dir", "rocreate", "shortbody", "shortbody", "flock-eintr", "flock-enolck")
+			a.Hostile = pick(r, "short", "badheader", "dir", "rocreate", "shortbody", "shortbody", "flock-eintr", "flock-enolck", "fsync-eio")
 			a.Sessions = int(between(r, 1, 2))
 			if prop == "C05" {
 				a.Kind, a.Hostile = "reader", ""
@@ -569,6 +569,36 @@ func c13BadOpen(e *Env, s *Sched, c *C13Case, a C13Actor, tag string, viol func(
 			e.Probe("lock-request-repeated-after-a-failure")
 			return
 		}
+	case "fsync-eio":
+		// a disk error: every fsync of this session fails. Sync reports it, and
+		// the Close that follows must still release descriptor and lock
+		db, cerr := c.Layout.create(p)
+		if cerr != nil {
+			return
+		}
+		me := s.Current()
+		hit := false
+		wt.VerifFsync = func() error {
+			if s.Current() == me {
+				hit = true
+				return syscall.EIO
+			}
+			return nil
+		}
+		err = db.Sync()
+		cerr2 := db.Close()
+		wt.VerifFsync = nil
+		if !hit {
+			e.Skip("fsync-fault-not-reached")
+			return
+		}
+		e.Fault("F12.failing-fsync")
+		if err == nil {
+			viol("C13.session", "Sync returned nil although the fsync of the file failed with EIO")
+			return
+		}
+		_ = cerr2
+		what = "Sync whose fsync failed with EIO, then Close"
 	case "dir":
 		os.Mkdir(p, 0o755)
 		_, err = wt.Open(p, wt.WithOpenFileFlag(os.O_RDONLY))
@@ -586,7 +616,11 @@ func c13BadOpen(e *Env, s *Sched, c *C13Case, a C13Actor, tag string, viol func(
 	e.Fault("F8.failing-open/" + a.Hostile)
 	// (v) neither open nor locked
 	if n := fdCount(p); n > 0 {
-		viol("C13.failed-open-keeps-descriptor", "%s failed (%v) but the process still holds %d descriptor(s) on the path", what, trunc(err.Error(), 80), n)
+		oracle := "C13.failed-open-keeps-descriptor"
+		if a.Hostile == "fsync-eio" {
+			oracle = "C13.closed-handle-keeps-descriptor"
+		}
+		viol(oracle, "%s failed (%v) but the process still holds %d descriptor(s) on the path", what, trunc(err.Error(), 80), n)
 		return
 	}
 	f, oerr := os.OpenFile(p, os.O_RDONLY, 0)
